@@ -1780,3 +1780,46 @@ package hashgraph
 //@   ensures[frame]  ret2 == nil ==> ret1 != nil && __called("GetFrame") && __lastret("GetFrame", 0) == ret1
 //@   call GetFrame assert[of-anchor-round] __arg(0) == G_blocks(h.Store)[*h.AnchorBlock].Body.RoundReceived
 //@   ensures[err]    ret2 != nil ==> ret0 == nil && ret1 == nil
+
+// ------------------------------------------------------------------------------------------------
+// Bootstrap (re-opening a database; C16 "also after the store was closed and reopened", mechanism of C11): the
+// events are read back in batches of 100 consecutive topological indexes starting at 0, with no gap and no overlap
+// between batches, every one of them goes through the normal insert-and-run-consensus path while the store is in
+// maintenance mode (no database write), reading stops at the first short batch, and the maintenance flag is put back
+// on every returning path. The database reads themselves (dbGetPeerSet, dbTopologicalEvents) are trusted; the
+// in-memory SetPeerSet of the genesis set is not verified (its effect on the store is assumed to be within the
+// Store view).
+//@ func (s *BadgerStore) dbGetPeerSet(round int) (*peers.PeerSet, error)
+//@   trusted Badger read + PeerSet.Unmarshal; errors are Badger's or the codec's
+//@   requires s != nil
+//@   modifies nothing
+//@   ensures[ok] ret1 == nil ==> ret0 != nil
+
+//@ func (s *BadgerStore) dbTopologicalEvents(start int, count int) ([]*Event, error)
+//@   trusted Badger reads of the consecutive topological-index records start, start+1, ... (at most count), each event decoded from its own record
+//@   requires s != nil
+//@   modifies nothing
+//@   ensures[batch] ret1 == nil ==> len(ret0) <= count && (forall k int :: 0 <= k && k < len(ret0) ==> ret0[k] != nil && __fresh(ret0[k]) && len(ret0[k].Body.Parents) == 2)
+
+//@ func (s *InmemStore) SetPeerSet(round int, peerSet *peers.PeerSet) error
+//@   trusted not verified against Store.SetPeerSet (three attempts, see above); only its frame is used
+//@   requires s != nil && peerSet != nil
+//@   modifies G_pset(s), G_psetOK(s), G_psetFloor(s), G_rep(s), G_fault(s)
+
+//@ func (h *Hashgraph) Bootstrap() error
+//@   requires h != nil && h.PendingSignatures != nil && h.PendingSignatures.items != nil && h.MemoOK() && h.PendingRounds != nil && h.PendingRounds.wf()
+//@   requires forall b *BadgerStore :: interface{}(h.Store) == interface{}(b) ==> b != nil && b.inmemStore != nil
+//@   ensures[maintenance-restored] __dyn(h.Store, "BadgerStore") ==> h.Store.(*BadgerStore).maintenanceMode == old(h.Store.(*BadgerStore).maintenanceMode)
+//@   ensures[complete] ret0 == nil && __called("dbTopologicalEvents") ==> len(__lastretT[[]*Event]("dbTopologicalEvents", 0)) < 100
+//@   call InsertEventAndRunConsensus assume[db-event-shape] len(e.Body.Parents) == 2
+//@   call ProcessSigPool assume[separate-blocks] StoredBlocksSeparate(h.Store)
+//@   call dbTopologicalEvents assert[window]  __arg(0) == 100*__iter() && __arg(1) == 100
+//@   call InsertEventAndRunConsensus assert[no-db-writes] badgerStore.maintenanceMode
+//@   call InsertEventAndRunConsensus assert[replayed] __arg(0) == topologicalEvents[__idx()] && __arg(1) == true
+//@   call ProcessSigPool assert[no-db-writes] badgerStore.maintenanceMode
+//@   loop 1 invariant[full-batches] index == __iter() && batchSize == 100 && badgerStore.maintenanceMode
+//@   loop 1 invariant[ready] h.ConsensusReady()
+//@   loop 1 invariant[same-store] h.Store == old(h.Store) && interface{}(h.Store) == interface{}(badgerStore)
+//@   loop 2 invariant[same-store] h.Store == old(h.Store) && interface{}(h.Store) == interface{}(badgerStore)
+//@   loop 2 invariant[mode] badgerStore.maintenanceMode
+//@   loop 2 invariant[ready] h.ConsensusReady()
